@@ -185,14 +185,19 @@ def decorate(score, rng, part, level):
 def ties_expressible(score, part):
     """MusicXML pairs ties by pitch: while a tie is open no other note of the part has that pitch"""
     notes = [n for n in part.notes if not isinstance(n, score.GraceNote)]
+    ends = sorted(m.end.t for m in part.iter_all(score.Measure))
     for a in notes:
         b = a.tie_next
         if b is None:
             continue
+        bar_end = next((t for t in ends if t > b.start.t), b.end.t)
         for x in notes:
-            if x is a or x is b or x.midi_pitch != a.midi_pitch:      # (sounding pitch: enharmonic spellings count as one pitch)
+            if x is a or x is b or (x.step, x.alter or 0, x.octave) != (a.step, a.alter or 0, a.octave):
                 continue
             if x.start.t <= b.start.t and x.end.t >= a.start.t:
+                return False
+            # (another tie on the same pitch in the bar where this one closes may be written before it)
+            if (x.tie_next is not None or x.tie_prev is not None) and x.start.t < bar_end and x.end.t >= a.start.t:
                 return False
     return True
 
